@@ -854,7 +854,7 @@ def confusion_matrix(obs, sim, ncat=None):
     # Infer number of categories
     if ncat is None:
         cats = np.concatenate([cm.index.values, cm.columns.values])
-        ncat = len(np.unique(cats))
+        ncat = int(np.max(cats)) + 1
 
     # Add missing rows and columns
     if cm.shape != (ncat, ncat):
